@@ -444,15 +444,21 @@ StaleEdit ==
                          !.cache[p] = [v |-> 0, d |-> "d8"], !.edited = @ \cup {p}, !.budget = 0]
 
 \* content inside a directory that the plan removes disappears between scan and
-\* transition.  The removal treats it as already removed, so results stay exact:
-\* the one external change admitted in C09 runs (then without injected event).
+\* transition.  A removal whose own loop meets no failure treats it as already
+\* removed, so results stay exact: the one external change admitted in C09 runs
+\* (then without injected event).  (If a sibling's removal fails, the code keeps
+\* the vanished entry in the reduced result - external edits are outside C09.)
 DeleteInside ==
   /\ s.pc = "start" /\ Budget > 0 /\ s.budget = Budget /\ s.edited = {}
   /\ \E j \in 1..Len(s.plan) :
        /\ s.plan[j].old.k = "dir"
        /\ \E q \in Nodes(s.plan[j].old) \ {<<>>} :
-            LET p == s.plan[j].path \o q IN
+            LET p == s.plan[j].path \o q
+                dir == At(s.disk, ParentOf(p)) IN
             /\ At(s.disk, p) # Nil
+            \* no sibling removal fails on its own (unknown content below a sibling
+            \* directory): otherwise the code keeps the vanished entry in its result
+            /\ \A m \in DOMAIN dir.c \ {Last(p)} : \A r \in Nodes(dir.c[m]) : r # <<>> => At(dir.c[m], r).k # "untracked"
             /\ s' = [s EXCEPT !.disk = SetAt(s.disk, p, Nil), !.budget = 0, !.fkind = "deleted"]
 
 Done == s.pc = "done" /\ UNCHANGED s
